@@ -1178,6 +1178,13 @@ func replayConfirms(run *PropRun, g *ObGroup, path string) bool {
 		var m map[string]interface{}
 		if json.Unmarshal(data, &m) == nil {
 			m["replay"] = map[string]interface{}{"ran": ro.Ran, "confirmed_on_real_code": ro.Confirmed, "detail": ro.Detail, "output_tail": ro.Output, "inputs_built_from_model": ro.Inputs}
+			if g.ReplayGo != "" {
+				src := g.ReplayGo
+				if len(src) > 30000 {
+					src = src[:30000]
+				}
+				m["replay_test_source"] = src // run with: go test -overlay (file placed in the package directory) -run TestVerifReplay
+			}
 			if nd, err := json.MarshalIndent(m, "", " "); err == nil {
 				os.WriteFile(path, nd, 0o644)
 			}
